@@ -270,8 +270,8 @@ def classify_sanitizer(stderr):
     for m in _RE_UB.finditer(stderr):
         f, line, col, msg = m.groups()
         f = os.path.relpath(f, REPO) if f.startswith(REPO) else f
-        cls = re.sub(r'-?\d+(\.\d+)?(e[+-]?\d+)?', 'N', msg)
-        cls = re.sub(r"0x[0-9a-f]+", 'P', cls)
+        cls = re.sub(r"0x[0-9a-f]+", 'P', msg)
+        cls = re.sub(r'-?\d+(\.\d+)?(e[+-]?\d+)?', 'N', cls)
         out.append(('ubsan:%s:%s' % (f, cls[:80]), '%s:%s: %s' % (f, line, msg)))
     for m in re.finditer(r'ERROR: (AddressSanitizer|LeakSanitizer): ([^\n]*)', stderr):
         tool, what = m.groups()
